@@ -27,7 +27,7 @@ FHS = [
     (17, 0, [(F2, F1)]),
 ]
 PROBE_FN_Q = [0, 1, 2, 3, 4, 5, 51, 52, 1325, 1326, 2715646, 2715647]
-PROBE_FN_T = sorted(set(list(range(0, 32)) + [50, 51, 52, 102, 103, 1325, 1326, 1327, 84863, 84864, 2715646, 2715647]))
+PROBE_FN_T = sorted(set(list(range(0, 12)) + [25, 26, 50, 51, 52, 102, 103, 1325, 1326, 1327, 84863, 84864, 2715646, 2715647]))
 
 
 def fh_cmd(v):
@@ -36,11 +36,11 @@ def fh_cmd(v):
 
 
 class Spec:
-    def __init__(self, name, extra, ntune, nfh, assign, tier, trim=()):
+    def __init__(self, name, extra, ntune, nfh, assign, tier, trim=(), fns=None):
         self.name = "C02/" + name
         self.defs = trxmodel.std_config(extra)
         self.assign = assign        # list of (ver, muted) per transceiver
-        self.fns = PROBE_FN_Q if tier == "quick" else PROBE_FN_T
+        self.fns = fns or (PROBE_FN_Q if tier == "quick" else PROBE_FN_T)
         self.alpha = []
         for i in range(len(self.defs)):
             small = i in trim
@@ -109,13 +109,12 @@ def specs(tier):
     else:
         out.append(Spec("3trx/first-rx-muted", child, 2, 2, [(0, 1), (0, 0), (0, 0)], tier))
         out.append(Spec("3trx/first-rx-muted-v1", child, 1, 2, [(1, 1), (1, 0), (1, 0)], tier))
-        out.append(Spec("3trx/v0", child, 3, 4, [(0, 0)] * 3, tier))
-        out.append(Spec("3trx/v1", child, 2, 3, [(1, 0)] * 3, tier))
-        out.append(Spec("3trx/mixed", child, 2, 3, [(1, 0), (0, 0), (1, 1)], tier))
-        out.append(Spec("3trx/ms-muted", child, 2, 2, [(0, 0), (1, 1), (0, 0)], tier))
-        out.append(Spec("4trx/extra", child + [("X", 7700, 0)], 2, 3, [(0, 0), (1, 0), (0, 0), (1, 0)], tier, trim=(2, 3)))
-        out.append(Spec("5trx/extra+mschild", child + [("X", 7700, 0), ("M1", 6700, 1)], 2, 2,
-                        [(0, 0), (1, 0), (0, 0), (1, 0), (0, 0)], tier, trim=(2, 3, 4)))
+        out.append(Spec("3trx/v0", child, 2, 4, [(0, 0)] * 3, tier))
+        out.append(Spec("3trx/v1", child, 2, 2, [(1, 0)] * 3, tier))
+        out.append(Spec("3trx/mixed", child, 2, 2, [(1, 0), (0, 0), (1, 1)], tier, trim=(2,)))
+        out.append(Spec("4trx/extra", child + [("X", 7700, 0)], 2, 2, [(0, 0), (1, 0), (0, 0), (1, 0)], tier, trim=(2, 3)))
+        out.append(Spec("5trx/extra+mschild", child + [("X", 7700, 0), ("M1", 6700, 1)], 1, 1,
+                        [(0, 0), (1, 0), (0, 0), (1, 0), (0, 0)], tier, trim=(0, 1, 2, 3, 4), fns=PROBE_FN_Q))
         out.append(Spec("2trx/allfh", [], 3, 6, [(0, 0), (1, 0)], tier))
     return out
 
